@@ -28,3 +28,61 @@ pub fn dec(b: &[u8]) -> i128 {
 pub fn fld<'a>(f: &'a [Vec<u8>], i: usize) -> &'a [u8] {
     f.get(i).map(|v| &v[..]).unwrap_or(&[])
 }
+
+// ---------------------------------------------------------------------------------------------
+// canonical text form of a Primitive (mirrored by tools/oracle/canon.py and, for the parser model,
+// by Syn/Canon.v):  n t f i<dec> r<8 hex: f32 bits> N<hex>; S<hex>; R<id>,<gen> [v v] {<hexkey>:v <hexkey>:v}
+// s{dict}<hex raw data>;   (s{dict}!<ErrKind>; when the raw data cannot be read)
+use pdf::primitive::{Primitive, Dictionary};
+use pdf::object::Resolve;
+
+pub fn hexs(b: &[u8], out: &mut String) {
+    for x in b { out.push_str(&format!("{:02x}", x)); }
+}
+pub fn canon_dict(d: &Dictionary, r: &impl Resolve, out: &mut String) {
+    out.push('{');
+    let mut first = true;
+    for (k, v) in d.iter() {
+        if !first { out.push(' '); }
+        first = false;
+        hexs(k.as_str().as_bytes(), out);
+        out.push(':');
+        canon_into(v, r, out);
+    }
+    out.push('}');
+}
+pub fn canon_into(p: &Primitive, r: &impl Resolve, out: &mut String) {
+    match p {
+        Primitive::Null => out.push('n'),
+        Primitive::Boolean(true) => out.push('t'),
+        Primitive::Boolean(false) => out.push('f'),
+        Primitive::Integer(i) => out.push_str(&format!("i{}", i)),
+        Primitive::Number(x) => out.push_str(&format!("r{:08x}", x.to_bits())),
+        Primitive::Name(s) => { out.push('N'); hexs(s.as_str().as_bytes(), out); out.push(';'); }
+        Primitive::String(s) => { out.push('S'); hexs(s.as_bytes(), out); out.push(';'); }
+        Primitive::Reference(x) => out.push_str(&format!("R{},{}", x.id, x.gen)),
+        Primitive::Array(a) => {
+            out.push('[');
+            for (i, v) in a.iter().enumerate() { if i > 0 { out.push(' '); } canon_into(v, r, out); }
+            out.push(']');
+        }
+        Primitive::Dictionary(d) => canon_dict(d, r, out),
+        Primitive::Stream(s) => {
+            out.push('s');
+            canon_dict(&s.info, r, out);
+            match s.raw_data(r) {
+                Ok(d) => hexs(&d, out),
+                Err(e) => { out.push('!'); out.push_str(&ekind(&e)); }
+            }
+            out.push(';');
+        }
+    }
+}
+pub fn canon(p: &Primitive, r: &impl Resolve) -> Vec<u8> {
+    let mut s = String::new();
+    canon_into(p, r, &mut s);
+    s.into_bytes()
+}
+pub fn canon_res(p: pdf::error::Result<Primitive>, r: &impl Resolve) -> Vec<u8> {
+    match p { Ok(p) => canon(&p, r), Err(e) => format!("!{}", ekind(&e)).into_bytes() }
+}
